@@ -16,6 +16,7 @@
 """A context for the handling of a trigger."""
 
 import inspect
+import sys
 import uuid
 from types import FrameType
 from typing import Dict, Optional, List
@@ -25,7 +26,8 @@ from deep.api.plugin import TracepointLogger
 from deep.api.tracepoint import Variable
 from deep.api.tracepoint.trigger import LocationAction
 from deep.config import ConfigService
-from deep.processor.context.action_context import NoActionContext, ActionContext, FailedExpression
+from deep.processor.context.action_context import NoActionContext, ActionContext, FailedExpression, \
+    forget_evaluation
 from deep.processor.context.action_results import ActionResult, ActionCallback
 from deep.processor.context.log_action import LogActionContext
 from deep.processor.context.metric_action import MetricActionContext
@@ -204,10 +206,9 @@ class TriggerContext:
         try:
             return self.evaluate(expression)
         except BaseException as e:
-            # without its traceback: the traceback refers to our frames, which lead back (f_back) to the frame of the
-            # caller that stores this result - a reference cycle that keeps the whole stack, the application's frames
-            # and variables included, alive until the garbage collector runs
-            return FailedExpression(e.with_traceback(None))
+            # without the entries of this evaluation in its traceback (see forget_evaluation)
+            forget_evaluation(e, sys._getframe())
+            return FailedExpression(e)
 
     def attach_result(self, result: ActionResult):
         """
